@@ -87,6 +87,12 @@ func c19Gen(rt *rapid.T) c19Case {
 	}
 	n := rapid.IntRange(1, 30).Draw(rt, "nops")
 	w := c.Window
+	if !c.Genesis {
+		// a database that is back-filled before anything was accepted
+		for k := rapid.IntRange(0, 4).Draw(rt, "prefill"); k > 0; k-- {
+			c.Ops = append(c.Ops, c19Op{K: "hist", A: rapid.Uint64Range(0, 63).Draw(rt, "hist")})
+		}
+	}
 	for i := 0; i < n; i++ {
 		var op c19Op
 		switch k := rapid.IntRange(0, 99).Draw(rt, "kind"); {
@@ -134,7 +140,9 @@ func (s *c19State) open(w uint64) error {
 	}
 	s.idx = idx
 	s.m.setWindow(w)
-	s.segClean = true
+	// the startup cleanup works relative to the recorded tip: without one (only
+	// back-filled blocks so far) nothing bounds what is on disk
+	s.segClean = s.m.HasLast || len(s.blocks) == 0
 	return nil
 }
 
@@ -353,6 +361,17 @@ func c19Run(c c19Case, st *vstat.Stats) error {
 				}
 			case "restart":
 				old := s.m.W
+				// label only: does this restart find blocks older than its window on disk?
+				if s.m.HasLast && op.A >= 1 && s.m.Last > op.A {
+					for _, h := range s.m.everSorted() {
+						if h != 0 && h < s.m.Last-op.A {
+							if _, err := s.idx.GetBlockIDAtHeight(s.ctx, h); err == nil {
+								s.labels["restart-finds-blocks-older-than-window"] = true
+								break
+							}
+						}
+					}
+				}
 				if err := s.open(op.A); err != nil {
 					return fmt.Errorf("%s: %w", name, err)
 				}
